@@ -388,11 +388,17 @@ class RemoteWorker(Worker, metaclass=RemoteWorkerMeta):
         logger.debug('Data socket at: {}', self._socket.getsockname())
 
         logger.debug('Spinning up a frontend thread')
+        self._startup_error = None
         self._child = threading.Thread(target=self._run_frontend, name=f'{self.name} (remote front)')
         self._child.start()
         self._dead = False
         logger.debug('Waiting for the frontend thread to notify that everything is up and running...')
         self._startup_sync.wait()
+        if self._startup_error is not None:
+            # the hand-shake with the server failed (server unreachable, died or dropped the connection) - there is no child
+            self._child.join()
+            self._dead = True
+            raise self._startup_error
         logger.details('Child created successfully, continuing with the main thread')
 
     # Parent-side, helper thread managing network communication and fetching results from the child
@@ -403,20 +409,34 @@ class RemoteWorker(Worker, metaclass=RemoteWorkerMeta):
         if self._set_names:
             setthreadtitle(f'{self.name} (remote front)', self)
 
-        logger.debug('Sending self to the server to initialize backend...')
-        send_msg(self._socket, (self._context, True), comment='data: header')
-        send_msg(self._socket, self, comment='data: initial remote worker') # this will spawn a backend at the remote side, via __getstate__(remote=True) and __setstate__
+        try:
+            logger.debug('Sending self to the server to initialize backend...')
+            send_msg(self._socket, (self._context, True), comment='data: header')
+            send_msg(self._socket, self, comment='data: initial remote worker') # this will spawn a backend at the remote side, via __getstate__(remote=True) and __setstate__
 
-        logger.debug('Waiting for control socket address from the child...')
-        control_addr = recv_msg(self._socket, comment='control socket addr')
+            logger.debug('Waiting for control socket address from the child...')
+            control_addr = recv_msg(self._socket, comment='control socket addr')
 
-        logger.debug('Control socket address from the child: {}, connecting...', control_addr)
-        self._ctrl_sock = socket.socket(socket.AF_INET, socket.SOCK_STREAM)
-        set_keepalive(self._ctrl_sock, True)
-        self._ctrl_sock.connect(control_addr)
-        logger.debug('Control sockets connected: {} <==> {}', self._ctrl_sock.getsockname(), control_addr)
+            logger.debug('Control socket address from the child: {}, connecting...', control_addr)
+            self._ctrl_sock = socket.socket(socket.AF_INET, socket.SOCK_STREAM)
+            set_keepalive(self._ctrl_sock, True)
+            self._ctrl_sock.connect(control_addr)
+            logger.debug('Control sockets connected: {} <==> {}', self._ctrl_sock.getsockname(), control_addr)
 
-        self._host, self._pid, self._tid, self._ident = recv_msg(self._ctrl_sock, comment='ctrl: runtime info')
+            self._host, self._pid, self._tid, self._ident = recv_msg(self._ctrl_sock, comment='ctrl: runtime info')
+        except BaseException as e:
+            # let the constructor (waiting in _start) know that there will be no child
+            logger.debug('Creating the backend failed', exc_info=1)
+            self._startup_error = e
+            for sock in (self._socket, getattr(self, '_ctrl_sock', None)):
+                try:
+                    if sock is not None:
+                        sock.close()
+                except OSError:
+                    pass
+            self._startup_sync.set()
+            return
+
         logger.debug('Received info package from the backend, signalling the main thread that everything is fine')
         self._startup_sync.set()
         self._fetch_results()
